@@ -1,4 +1,4 @@
-# also: C01 C05 C07
+# also: C01 C05 C07 C03
 """C02 / C01 / C05 / C07 - VMDK: header-driven relocation, footer region,
 descriptor and footer checks (sparse-header path class: S[0:4] == b'KDMV').
 
@@ -11,7 +11,8 @@ Text-descriptor mode is the known finding F1 and is not under contract.
 """
 from pyvc.api import (proof, load, invariant, model, tier, fresh_int, fresh_bytes,
                       fresh_str, fresh_bool, pick, assume, check, implies,
-                      conj, disj, neg, le, same, stub, cover)
+                      conj, disj, neg, le, same, stub, cover, forall_int,
+                      byte_at)
 
 FI = 'oslo_utils/imageutils/format_inspector.py'
 GD_AT_END = 0xffffffffffffffff
@@ -319,15 +320,54 @@ def parse_descriptor_never_raises():
         [b'createType="monolithicSparse"\nRW 1 SPARSE "x"\n\x00\x00',
          b'no type here', b'\xff\xfe binary', b'createType="' + b'x' * 80
          + b'"', b'createType="unterminated', b'\x00',
-         b'CREATETYPE="StreamOptimized"'])
+         b'CREATETYPE="StreamOptimized"',
+         b'createType="monolithicSparse"\n# c\x00\nRW 1 SPARSE "x"\n\x00',
+         b'# c\x00\ncreateType="streamOptimized"\n'])
     insp.delete_region('descriptor')
     insp.new_region('descriptor', d)
     insp.region_complete('descriptor')
     insp.region_complete('header')
+    if isinstance(d.data, bytes) and b'\xff' not in d.data:
+        # the text is what precedes the first NUL, lower-cased
+        raw = d.data
+        end = raw.find(b'\x00')
+        want = (raw if end < 0 else raw[:end]).decode('ascii').lower()
+        check('parse/text-ends-at-the-first-nul', insp.desc_text == want)
     check('parse/vmdktype-always-defined', isinstance(insp.vmdktype, str))
     if insp.desc_text:
         check('parse/text-is-lowercased', insp.desc_text
               == insp.desc_text.lower())
+
+
+@proof(['C02', 'C01'], targets=[(FI, 'VMDKInspector._parse_descriptor')],
+       native=False, assumes=['A-CODEC'])
+def parse_descriptor_reads_the_text_before_the_first_nul():
+    """For any descriptor bytes: the text handed to the checks is the ASCII
+    decoding, lower-cased, of what precedes the first NUL (all of it when
+    there is none); bytes that do not decode leave the state untouched."""
+    M = load(FI)
+    insp = M.VMDKInspector()
+    n = fresh_int('descriptor_bytes', 0, 1 << 20)
+    data = fresh_bytes('descriptor', length=n)
+    end = fresh_int('first_nul_or_length', 0, n)
+    assume(forall_int(0, end, lambda j: byte_at(data, j) != 0))
+    assume(disj(end == n, byte_at(data, end) == 0))
+    d = M.CaptureRegion(512, n)
+    d.data = data
+    insp.delete_region('descriptor')
+    insp.new_region('descriptor', d)
+    before = (insp.desc_text, insp.vmdktype)
+    insp.region_complete('descriptor')
+    try:
+        want = data[0:end].decode('ascii').lower()
+    except UnicodeDecodeError:
+        want = None
+    if want is None:
+        check('parse/undecodable-bytes-change-nothing',
+              (insp.desc_text, insp.vmdktype) == before)
+    else:
+        check('parse/text-is-the-lowercased-prefix-before-the-first-nul',
+              insp.desc_text == want)
 
 
 @proof(['C01', 'C07'], targets=[(FI, 'VMDKInspector._parse_descriptor')],
@@ -657,6 +697,31 @@ def vmdk_sparse_state_is_a_function_of_the_stream():
               a.complete == False and b.complete == False  # noqa
               and a.virtual_size == 0)
     cover('unique/reached')
+
+
+@proof(['C03', 'C01'], targets=[(FI, 'FileInspector.complete'),
+                                (FI, 'VMDKInspector.format_match')],
+       native=False)
+def vmdk_sparse_decision_is_not_revised():
+    """C03 no-revision for the VMDK sparse class: complete at q implies
+    complete, with the same format_match and virtual_size, at every later
+    position (the footer window only completes at EOF, so an image that
+    announces a footer is never complete before the end)."""
+    M = load(FI)
+    S = fresh_bytes('S')
+    q = fresh_int('q', 0, len(S))
+    q1 = fresh_int('q_later', q, len(S))
+    assume(disj(len(S) < 64, sparse_valid(S)))
+    PD = ParsedDescriptor(tokens=False)
+    a = vmdk_put_in_R(M, S, q, PD, '_a')
+    if not a.complete:
+        return
+    b = vmdk_put_in_R(M, S, q1, PD, '_b')
+    check('stable/complete-stays-complete', b.complete)
+    check('stable/format-match-kept', b.format_match == a.format_match)
+    check('stable/virtual-size-kept', b.virtual_size == a.virtual_size)
+    check('stable/no-footer-announced', not a.has_region('footer'))
+    cover('stable/reached')
 
 
 CANARIES = [
